@@ -36,6 +36,11 @@ def strategy_(draw):
     for d in sp["controls"] + sp["vars"] + ([] if sp["method"]["cls"] == "DC" else sp["states"]):
         if d["cols"] == 1 and not d.get("quad") and draw(st.booleans()):
             sp["initial"].append([d["name"], ["num", draw(gen.small())]])
+    # a guess for a free horizon (it also moves the start of time-grid variables and of guesses written in terms of t)
+    if sp["T"][0] == "free" and draw(st.booleans()):
+        sp["initial"].append(["T", ["num", draw(st.sampled_from([0.5, 1.5, 2.5]))]])
+    if sp["t0"][0] == "free" and draw(st.booleans()):
+        sp["initial"].append(["t0", ["num", draw(st.sampled_from([0.5, -1.0, 2.0]))]])
     if draw(st.integers(0, 3)) == 0:
         sub = draw(gen.base_ocp(horizons=("num", "free"), table_kw={"prefix": "s1", "max_params": 1, "max_vars": 1}, allow_alg=False))
         sub["name"] = "s1"
@@ -67,6 +72,8 @@ def feature_labels(case):
     labs = (["set_value after transcription, before save"] if case.get("late") and case["when"] != "before" else []) + ["method:" + sp["method"]["cls"], "grid:" + sp["method"]["grid"]["cls"], "save:" + case["when"], "solver-options:" + ("nested" if isinstance(sp.get("solver", [0, {}])[1].get("ipopt"), dict) else "dotted")]
     if sp["T"][0] == "free" or sp["t0"][0] == "free":
         labs.append("free-time")
+    if any(it[0] in ("T", "t0") for it in sp.get("initial", [])):
+        labs.append("guess for the free horizon")
     if sp["T"][0] == "par" or sp["t0"][0] == "par":
         labs.append("parametric-horizon")
     if sp.get("alg"):
